@@ -236,7 +236,11 @@ class CRunner:
         return qpair(self.cfg_term(), qlist(self.ops), outs, views)
 
     def close(self):
-        self.d.close()
+        d, self.d = self.d, None       # the runner keeps only what it recorded: thousands of live loops make asyncio.all_tasks() quadratic
+        if d is not None:
+            d.close()
+            if hasattr(d, '_keep'):
+                d._keep.clear()
 
 
 CTYPE = 'ccfg * list op * list (list out) * list (cstate * bool * option tr)'
